@@ -51,6 +51,8 @@ pub fn part_of(label: &str, text: &str) -> Result<Part, String> {
         .next()
         .unwrap_or("")
         .to_string();
+    // "in name order": the name is the identifier, without the parameter list that follows it in the text
+    let token = token.split('<').next().unwrap_or("").to_string();
     Ok(Part {
         imports,
         token,
@@ -263,17 +265,51 @@ fn check_set(parts: &[Part], class: &[&str], origin: &str, exhaustive: bool, rng
     }
 }
 
-/// Registry types grouped by the file they are exported to (only files shared by >= 2 types).
+/// Registry types grouped by the file they are exported to (only files shared by >= 2 types). Several instantiations of one
+/// generic type are one member of the group (the first one listed); the others are its `alternates`.
 pub fn shared_files(reg: &[TypeEntry]) -> Vec<(String, Vec<usize>)> {
     let mut by: BTreeMap<String, Vec<usize>> = BTreeMap::new();
+    let mut seen: HashSet<(String, String)> = HashSet::new();
     for (i, e) in reg.iter().enumerate() {
         if let Some(p) = (e.output_path)() {
             // two spellings of one path are one file
             let norm = super::fsutil::norm_rel("", &p.to_string_lossy()).unwrap_or_else(|| p.to_string_lossy().to_string());
-            by.entry(norm).or_default().push(i);
+            if seen.insert((norm.clone(), (e.ident)())) {
+                by.entry(norm).or_default().push(i);
+            }
         }
     }
     by.into_iter().filter(|(_, v)| v.len() >= 2).collect()
+}
+
+/// For every group member: the other registry entries that are instantiations of the same generic type (same file, same
+/// identifier). Whichever of them is exported, the file must come out the same.
+pub fn alternates(reg: &[TypeEntry]) -> HashMap<usize, Vec<usize>> {
+    let mut first: HashMap<(String, String), usize> = HashMap::new();
+    let mut alts: HashMap<usize, Vec<usize>> = HashMap::new();
+    for (i, e) in reg.iter().enumerate() {
+        if let Some(p) = (e.output_path)() {
+            let norm = super::fsutil::norm_rel("", &p.to_string_lossy()).unwrap_or_else(|| p.to_string_lossy().to_string());
+            match first.get(&(norm.clone(), (e.ident)())) {
+                Some(&f) => alts.entry(f).or_default().push(i),
+                None => {
+                    first.insert((norm, (e.ident)()), i);
+                }
+            }
+        }
+    }
+    alts
+}
+
+/// the member itself or one of its alternates, chosen by `salt`
+fn pick<'a>(reg: &'a [TypeEntry], alts: &HashMap<usize, Vec<usize>>, i: usize, salt: usize) -> &'a TypeEntry {
+    match alts.get(&i) {
+        Some(a) => match salt % (a.len() + 1) {
+            0 => &reg[i],
+            k => &reg[a[k - 1]],
+        },
+        None => &reg[i],
+    }
 }
 
 fn class_of_group(reg: &[TypeEntry], group: &[usize]) -> Vec<&'static str> {
@@ -313,7 +349,22 @@ pub fn c05(args: &Args, reg: &[TypeEntry], log: &mut Log) {
         orders_only(args, reg, &groups, shard, shards, log);
         return;
     }
+    let alts = alternates(reg);
     if shard == 0 {
+        // the text written for a generic type does not depend on the instantiation that happens to be exported
+        for (&i, others) in &alts {
+            let own = guarded(|| (reg[i].export_to_string)());
+            for &o in others {
+                st.evaluations += 1;
+                let other = guarded(|| (reg[o].export_to_string)());
+                if own != other {
+                    st.fails += 1;
+                    log.emit(json!({"ev": "fail", "monitor": "C05", "part": "fold", "kind": "file-text-depends-on-the-instantiation", "class": [],
+                        "origin": format!("{:?}", (reg[i].output_path)()), "what": format!("{} and {} are written as different files", reg[i].rust, reg[o].rust),
+                        "expected": format!("{own:?}"), "got": format!("{other:?}")}));
+                }
+            }
+        }
         for (file, group) in &groups {
             let mut parts = vec![];
             for &i in group {
@@ -405,7 +456,7 @@ pub fn c05(args: &Args, reg: &[TypeEntry], log: &mut Log) {
             let mut reported = false;
             for k in 0..perm.len() {
                 let i = group[perm[k]];
-                let r = guarded(|| (reg[i].export)());
+                let r = guarded(|| (pick(reg, &alts, i, pi + k).export)());
                 seq_evals += 1;
                 let expect_parts: Vec<&Part> = perm[..=k].iter().map(|&j| &parts[&group[j]]).collect();
                 let expected = compose(&expect_parts);
@@ -422,7 +473,7 @@ pub fn c05(args: &Args, reg: &[TypeEntry], log: &mut Log) {
             // exporting again changes nothing
             let before = snapshot(&root);
             for &j in perm {
-                let _ = guarded(|| (reg[group[j]].export)());
+                let _ = guarded(|| (pick(reg, &alts, group[j], pi + j + 1).export)());
             }
             seq_evals += 1;
             let after = snapshot(&root);
@@ -469,6 +520,7 @@ fn orders_only(args: &Args, reg: &[TypeEntry], groups: &[(String, Vec<usize>)], 
     std::env::set_var("TS_RS_EXPORT_DIR", &out);
     let mut histories = 0u64;
     let mut fails = 0u64;
+    let alts = alternates(reg);
     for (gi, (file, group)) in groups.iter().enumerate() {
         if gi as u64 % shards.max(1) != shard {
             continue;
@@ -483,7 +535,7 @@ fn orders_only(args: &Args, reg: &[TypeEntry], groups: &[(String, Vec<usize>)], 
             let order: Vec<String> = perm.iter().map(|&j| reg[group[j]].id.clone()).collect();
             let mut problem: Option<(String, String)> = None;
             for &j in &perm {
-                match guarded(|| (reg[group[j]].export)()) {
+                match guarded(|| (pick(reg, &alts, group[j], histories as usize + j).export)()) {
                     Ok(Ok(())) => {}
                     Ok(Err(e)) => problem = problem.or(Some(("export-returned-an-error".into(), e))),
                     Err(p) => problem = problem.or(Some(("export-panicked".into(), p))),
